@@ -182,7 +182,7 @@ def parse_fails(log, name):
     body = body.strip("[]").strip()
     if not body:
         return []
-    return [int(x) for x in re.split(r"[;\s]+", body) if x]
+    return [int(re.sub(r"%\w+", "", x)) for x in re.split(r"[;\s]+", body) if x]
 
 
 def parse_verdicts(log):
